@@ -184,12 +184,14 @@ def run(M, c):
         r = random.Random(c["seed"])
         eds = edits(seed)
         for kind, pos, s in eds:
+            M.progress()
             posc = "start" if pos == 0 else "end" if pos >= len(seed) - 1 else "mid"
             for oname, opts in (OPTS if c["allopts"] else OPTS[:3] + [OPTS[3 + (pos + len(s)) % 4]]):
                 M.current = {"k": "one", "s": s, "o": oname}
                 out = call(M, s, oname, opts)
                 M.cls(c["si"], kind, posc, oname, out)
         for _ in range(c["double"]):
+            M.progress()
             _, _, s1 = r.choice(eds)
             e2 = edits(s1)
             _, _, s2 = r.choice(e2)
@@ -202,6 +204,7 @@ def run(M, c):
     if k == "concat":
         r = random.Random(c["seed"])
         for _ in range(c["n"]):
+            M.progress()
             a, b = r.choice(SEEDS), r.choice(SEEDS)
             s = a + r.choice(("/", " ", "T", "", "//", "/P", "Z/")) + b
             oname, opts = r.choice(OPTS)
@@ -213,6 +216,7 @@ def run(M, c):
         r = random.Random(c["seed"])
         pools = [ALPHA, "٠١٢٣٤٥٦٧٨٩:-T", "０１２３４５６７８９-:T", "0123456789" * 3 + "-:TZ+. ́​\x00\n\t", "PYMWDTHS0123456789.,", "0123456789"]
         for i in range(c["n"]):
+            M.progress()
             pool = r.choice(pools)
             n = r.choice((0, 1, 2, 3, 5, 8, 10, 19, 25, 40, 200)) if i % 50 else r.choice((1000, 5000))
             s = "".join(r.choice(pool) for _ in range(n))
@@ -228,6 +232,7 @@ def run(M, c):
     if k == "huge":
         nums = [2**31 - 1, 2**31, 2**32 - 1, 2**32, 2**32 + 1, 10**10, 2**63, 2**64, 10**20, 10**30, 999999999, 10**9, 99999999999]
         for n in nums:
+            M.progress()
             for tmpl in ("P%dD", "P%dW", "PT%dS", "PT%dH", "P%dY", "P%dM", "PT%dM", "P%dDT%dS", "P1DT%d.5S", "P%d.5D", "2020-01-01/P%dD", "P%dD/2020-01-01",
                          "P%dY/2020-01-01", "2020-01-01T00:00:00Z/P%dM", "%d-01-01", "2020-01-01T%d:00:00", "2020-%d"):
                 s = tmpl % ((n,) * tmpl.count("%d"))
@@ -239,6 +244,7 @@ def run(M, c):
     if k == "nonisostrict":
         P = M.pendulum
         for s in NON_ISO:
+            M.progress()
             M.current = {"k": "one", "s": s, "o": "default"}
             out = call(M, s, "default", {})
             M.check("strict.reject", out == "VE", "C17/strict-accepts-non-iso" if out.startswith("OK") else "C17/strict-other:" + out,
@@ -248,6 +254,7 @@ def run(M, c):
         import calendar
 
         for mo in range(1, 13):
+            M.progress()
             for d in (1, 15, 28):
                 for s in (f"{calendar.month_abbr[mo]} {d} 2020", f"{d} {calendar.month_name[mo]} 2020", f"{d}-{calendar.month_abbr[mo]}-2020 10:00"):
                     M.current = {"k": "one", "s": s, "o": "default"}
